@@ -1242,6 +1242,12 @@ func (w *walker) evalIn(e ast.Expr, env *Env, depth int) *AV {
 		return unk
 	case *ast.IndexListExpr:
 		return w.evalIn(x.X, env, depth+1)
+	case *ast.TypeAssertExpr:
+		// destination.(Subscription) is still the destination
+		if v := w.evalIn(x.X, env, depth+1); v.Kind == AVDest || v.Kind == AVSub || v.Kind == AVComposite {
+			return v
+		}
+		return unk
 	case *ast.CallExpr:
 		for c := env; c != nil; c = c.Parent {
 			if v, ok := c.callVals[x]; ok {
